@@ -133,7 +133,9 @@ structure Rule where
   whens : List Condition := []
 deriving Repr, DecidableEq, Inhabited
 
-inductive Action | allow | deny | audit | custom
+/-- `unknown`: an action value outside the enum (`updateAuthorizationPoliciesResult` logs and ignores
+    such a policy; validation cannot produce it). -/
+inductive Action | allow | deny | audit | custom | unknown
 deriving Repr, DecidableEq, Inhabited
 
 structure Policy where
@@ -143,10 +145,27 @@ structure Policy where
   dryRun : Bool := false
   provider : Str := []
   selector : List (Str × Str) := []     -- spec.selector.matchLabels (empty = no selector)
-  /-- spec.targetRefs (or the legacy single targetRef): (group, kind, name, namespace) -/
+  /-- spec.targetRefs: (group, kind, name, namespace) -/
   targetRefs : List (Str × Str × Str × Str) := []
+  /-- the legacy single spec.targetRef -/
+  targetRef : Option (Str × Str × Str × Str) := none
   rules : List Rule := []
 deriving Repr, DecidableEq, Inhabited
+
+/-- `model.GetTargetRefs`: the list, or else the legacy single reference. -/
+def Policy.refs (p : Policy) : List (Str × Str × Str × Str) :=
+  if p.targetRefs.isEmpty then p.targetRef.toList else p.targetRefs
+
+/-- A `model.Service` as far as policy attachment reads it (`WithService`). -/
+structure Service where
+  name : Str               -- Attributes.Name (the hostname for a ServiceEntry service)
+  objectName : Str := []   -- Attributes.ObjectName (the name of the Service / ServiceEntry object)
+  ns : Str
+  k8s : Bool := true       -- registry Kubernetes (else External)
+deriving Repr, DecidableEq, Inhabited
+
+/-- `ptr.NonEmptyOrDefault(ObjectName, Name)`: the name targetRefs are compared with. -/
+def Service.policyName (s : Service) : Str := if s.objectName.isEmpty then s.name else s.objectName
 
 /-- The workload the filters are generated for (`WorkloadPolicyMatcher` of a sidecar: no
     gateway-name label, no targetRefs) and the mesh root namespace. -/
@@ -156,9 +175,10 @@ structure Workload where
   labels : List (Str × Str)
   /-- the proxy is a waypoint (`Proxy.IsWaypointProxy`, `WorkloadPolicyMatcher.IsWaypoint`) -/
   waypoint : Bool := false
-  /-- `WithService` (`NewBuilderForService`): the service the chain is built for -
-      (name, namespace, registry is Kubernetes (else External)) -/
-  service : Option (Str × Str × Bool) := none
+  /-- `WithService` (`NewBuilderForService`): the service the chain is built for -/
+  service : Option Service := none
+  /-- `features.EnableSelectorBasedK8sGatewayPolicy` (default on) -/
+  selectorGatewayPolicy : Bool := true
 deriving Repr, DecidableEq, Inhabited
 
 /-! ## Attribute vocabulary (model.go constants, `New` switch) -/
@@ -908,27 +928,49 @@ def refIs (ref : Str × Str × Str × Str) (group kind : Str) : Bool :=
 def waypointClassName : Str := "istio-waypoint".toList
 def istioNetworkingGroup : Str := "networking.istio.io".toList
 
-/-- `WorkloadPolicyMatcher.ShouldAttachPolicy` (selector based gateway policy enabled, the default). -/
+/-- The body of the targetRef loop of `ShouldAttachPolicy` for one reference: `true` = `return true`,
+    `false` = fall through / `continue`. -/
+def refAttaches (w : Workload) (gw : Str) (p : Policy) (ref : Str × Str × Str × Str) : Bool :=
+  -- Service attached
+  (w.waypoint && refIs ref [] "Service".toList &&
+    w.service.any fun s => ref.2.2.1 == s.policyName && p.ns == s.ns && s.k8s) ||
+  -- ServiceEntry attached
+  (w.waypoint && refIs ref istioNetworkingGroup "ServiceEntry".toList &&
+    w.service.any fun s => ref.2.2.1 == s.policyName && p.ns == s.ns && !s.k8s) ||
+  -- GatewayClass of the waypoints, root namespace
+  (p.ns == w.rootNs && w.waypoint && refIs ref gatewayGroup "GatewayClass".toList &&
+    ref.2.2.1 == waypointClassName) ||
+  -- namespace does not match -> continue; foreign targetRef namespace -> continue; Gateway attached
+  (if w.ns != p.ns then false
+   else if !(ref.2.2.2.isEmpty || ref.2.2.2 == w.ns) then false
+   else refIs ref gatewayGroup "Gateway".toList && ref.2.2.1 == gw)
+
+/-- `WorkloadPolicyMatcher.ShouldAttachPolicy`. -/
 def shouldAttach (w : Workload) (p : Policy) : Bool :=
   match lookupLabel gatewayNameLabel w.labels with
-  | none => p.targetRefs.isEmpty && p.selector.all (w.labels.contains ·)
+  | none =>
+    -- non-gateway: targetRefs are ignored altogether, else the selector decides
+    if !p.refs.isEmpty then false else p.selector.all (w.labels.contains ·)
   | some gw =>
-    if p.targetRefs.isEmpty then !w.waypoint && p.selector.all (w.labels.contains ·)
-    else p.targetRefs.any fun ref =>
-      (w.waypoint && refIs ref [] "Service".toList &&
-        w.service.any fun s => ref.2.2.1 == s.1 && p.ns == s.2.1 && s.2.2) ||
-      (w.waypoint && refIs ref istioNetworkingGroup "ServiceEntry".toList &&
-        w.service.any fun s => ref.2.2.1 == s.1 && p.ns == s.2.1 && !s.2.2) ||
-      (p.ns == w.rootNs && w.waypoint && refIs ref gatewayGroup "GatewayClass".toList &&
-        ref.2.2.1 == waypointClassName) ||
-      (w.ns == p.ns && (ref.2.2.2.isEmpty || ref.2.2.2 == w.ns) &&
-        refIs ref gatewayGroup "Gateway".toList && ref.2.2.1 == gw)
+    if p.refs.isEmpty then
+      -- gateways need the feature flag for selector policies, waypoints never use a selector
+      if w.waypoint || !w.selectorGatewayPolicy then false else p.selector.all (w.labels.contains ·)
+    else p.refs.any (refAttaches w gw p)
+
+/-- `ListAuthorizationPolicies`: the namespaces searched. -/
+def lookupNamespaces (w : Workload) : List Str :=
+  [w.rootNs, w.ns] ++ (w.service.map (·.ns)).toList
 
 /-- `GetAuthorizationPolicies` + `ListAuthorizationPolicies`: policies of the root namespace, of the
-    workload's namespace and of the namespace of the service the chain is built for, that attach. -/
+    workload's namespace and of the namespace of the service the chain is built for, that attach (a
+    policy with an action outside the enum lands in none of the per-action lists:
+    `updateAuthorizationPoliciesResult`; every consumer below filters by action). -/
 def selectPolicies (w : Workload) (ps : List Policy) : List Policy :=
-  ps.filter fun p =>
-    (p.ns == w.rootNs || p.ns == w.ns || w.service.any fun s => p.ns == s.2.1) && shouldAttach w p
+  ps.filter fun p => (lookupNamespaces w).contains p.ns && shouldAttach w p
+
+/-- `NewWaypointTerminationBuilder`: the HBONE termination layer of a waypoint selects like an ordinary
+    gateway workload (`IsWaypoint = false`, no service) ... -/
+def Workload.termination (w : Workload) : Workload := { w with waypoint := false, service := none }
 
 structure BuildOpts where
   bundle : List Str            -- trustdomain.Bundle.TrustDomains (local trust domain first)
@@ -1116,5 +1158,56 @@ def forListenerClass (outbound : Bool) (fs : List GFilter) : List GFilter := if 
     (the order in which the authz plugin adds them). -/
 def compileAll (w : Workload) (o : BuildOpts) (c : CustomOpts) (ps : List Policy) : List GFilter :=
   compileCustomSelected o c (selectPolicies w ps) ++ (compile w o ps).map .rbac
+
+/-! ## The authz plugin (`pilot/pkg/networking/plugin/authz/authorization.go`)
+
+One `Builder` per proxy is shared by all filter chains of its listeners: `BuildTCP` and `BuildHTTP`
+build lazily and keep their result, `BuildHTTP` yields nothing for sidecar outbound listeners,
+`BuildTCPRulesAsHTTPFilter` is not cached.  (The CUSTOM and the Local builder are two such objects
+called side by side; `compileAll` is their joint output, so one cache models both.) -/
+
+inductive Call
+  | tcp                      -- BuildTCP()
+  | http (outbound : Bool)   -- BuildHTTP(class); outbound = ListenerClassSidecarOutbound
+  | tcpHttp                  -- BuildTCPRulesAsHTTPFilter()
+deriving Repr, DecidableEq, Inhabited
+
+/-- What the underlying `builder.Builder` produces for a call, for fixed policies. -/
+def buildFresh (w : Workload) (bundle : List Str) (useAuth : Bool) (c : CustomOpts) (ps : List Policy) :
+    Call → List GFilter
+  | .tcp => compileAll w { bundle := bundle, forTCP := true, useAuth := useAuth } c ps
+  | .http _ => compileAll w { bundle := bundle, forTCP := false, useAuth := useAuth } c ps
+  | .tcpHttp => compileAll w { bundle := bundle, forTCP := true, useAuth := useAuth, tcpRulesAsHTTP := true } c ps
+
+/-- The plugin builder's state: `tcpBuilt`/`tcpFilters`, `httpBuilt`/`httpFilters`. -/
+structure Plugin where
+  tcp : Option (List GFilter) := none
+  http : Option (List GFilter) := none
+deriving Repr, Inhabited
+
+def Plugin.call (fresh : Call → List GFilter) (p : Plugin) : Call → Plugin × List GFilter
+  | .tcp =>
+    match p.tcp with
+    | some f => (p, f)
+    | none => ({ p with tcp := some (fresh .tcp) }, fresh .tcp)
+  | .http true => (p, [])
+  | .http false =>
+    match p.http with
+    | some f => (p, f)
+    | none => ({ p with http := some (fresh (.http false)) }, fresh (.http false))
+  | .tcpHttp => (p, fresh .tcpHttp)
+
+/-- A sequence of calls on one plugin builder: the outputs. -/
+def Plugin.run (fresh : Call → List GFilter) : Plugin → List Call → List (List GFilter)
+  | _, [] => []
+  | p, c :: cs => (p.call fresh c).2 :: Plugin.run fresh (p.call fresh c).1 cs
+
+/-- What each call must yield, whatever was called before. -/
+def callResult (fresh : Call → List GFilter) : Call → List GFilter
+  | .http true => []
+  | c => fresh c
+
+/-- `NewWaypointTerminationBuilder`: ... and never reads the peer from the filter state. -/
+def terminationUseAuth (_useAuth : Bool) : Bool := true
 
 end IstioModel.C08
